@@ -159,6 +159,7 @@ def eval_case(case):
     nt = case['params'][4] != 0 and len(case['distances']) >= 4
     out = {'fails': fails, 'nontrivial': nt,
            'labels': [f"distances={len(case['distances'])}", f"N={case['N']}",
+                      'window:' + case.get('shape', 'sym'),
                       'ragged-grid' if any(t != [0, 0] for t in (case.get('trims') or [])) else 'common-grid',
                       'C=0' if case['params'][4] == 0 else 'C>0'],
            'evals': len(case['layouts'])}
@@ -189,7 +190,18 @@ def cases(draw):
         xmax *= 0.85
     half = min(xmax / dmax ** nu, 0.9 * p_th)
     nr = draw(st.sampled_from([7, 9, 11, 13]))
-    rates = [round(p_th + half * (2 * i / (nr - 1) - 1), 6) for i in range(nr)]
+    # window position: symmetric, or shifted so that only one or two of the
+    # supplied rates lie below (above) p_th
+    shape = draw(st.sampled_from(['sym', 'sym', 'low-edge', 'high-edge']))
+    if shape == 'sym':
+        rates = [round(p_th + half * (2 * i / (nr - 1) - 1), 6) for i in range(nr)]
+    else:
+        step = half / (nr - 1)              # same total width as a half window
+        below = draw(st.sampled_from([1, 2]))
+        offs = [(i - below + 0.5) * 2 * step for i in range(nr)]
+        if shape == 'high-edge':
+            offs = [-o for o in reversed(offs)]
+        rates = [round(p_th + o, 6) for o in offs]
     N = draw(st.sampled_from([4000, 20000]))
     layouts = [[draw(st.integers(0, 10**6)), draw(st.integers(1, 12))]]
     if draw(st.booleans()):
@@ -201,7 +213,7 @@ def cases(draw):
         room = (nr - 7) // 2
         trims = [[draw(st.integers(0, room)), draw(st.integers(0, room))] for _ in dist]
     return {'params': [p_th, nu, A, B_raw, C], 'distances': dist, 'rates': rates,
-            'trims': trims, 'N': N, 'layouts': layouts}
+            'trims': trims, 'N': N, 'layouts': layouts, 'shape': shape}
 
 
 def run(ctx):
